@@ -34,7 +34,52 @@ def cases(seed, tier):
     for i in range(3 if tier == "quick" else 40):
         out.append({"gen": "zoo", "seed": rng.randrange(2 ** 31), "max_size": 2, "big": rng.choice([50, 60, 90]), "orient": [None, "S+", None][i % 3], "sorted": i % 2 == 0,
                     "orders": 1, "first": (i * 5) % 27, "irows": ["list", "npint", "tuple"][i % 3]})
+    # few border vertices among many interior ones (a coarse cell refined by inserting points inside it), in every numbering: interior
+    # vertices numbered before, after or between the border ones
+    for i in range(12 if tier == "quick" else 400):
+        out.append({"gen": "refined", "seed": rng.randrange(2 ** 31), "max_size": 2, "base": ["tet", "cube", "tet"][i % 3], "inserted": rng.choice([5, 6, 8, 12, 30, 40]),
+                    "numbering": ["interior_first", "random", "interior_last", "random"][i % 4],
+                    "orient": [None, "S+", None, "S-"][i % 4], "sorted": i % 2 == 0, "orders": 1, "first": (i * 7) % 27, "irows": ["list", "npint", "tuple"][i % 3]})
     return out
+
+
+def _refined(desc):
+    """A single tetrahedron (or a cube cut in six) refined by inserting points strictly inside cells: the border keeps its 4 (8) vertices."""
+    rb = random.Random(desc["seed"] ^ 0x3ef1)
+    if desc["base"] == "tet":
+        V = [[0.0, 0.0, 0.0], [1.0, 0.0, 0.0], [0.0, 1.0, 0.0], [0.0, 0.0, 1.0]]
+        C = [[0, 1, 2, 3]]
+    else:
+        V, C = volumes.kuhn_block(volumes.random_cubes(rb, 0, full=(1, 1, 1)))
+        V, C = [list(map(float, p)) for p in V], [list(map(int, c)) for c in C]
+    nb = len(V)
+    for _ in range(desc["inserted"]):
+        k = rb.randrange(len(C))
+        c = C[k]
+        w = [rb.uniform(0.15, 1.0) for _ in range(4)]
+        p = sum(np.asarray(V[v], float) * wi for v, wi in zip(c, w)) / sum(w)
+        V.append([float(x) for x in p])
+        n = len(V) - 1
+        C[k] = [n, c[1], c[2], c[3]]
+        C += [[c[0], n, c[2], c[3]], [c[0], c[1], n, c[3]], [c[0], c[1], c[2], n]]
+    V = np.asarray(V, float)
+    nV = len(V)
+    if desc["numbering"] == "random":
+        V, C = volumes.renumber(V, C, rb)
+    elif desc["numbering"] == "interior_first":
+        perm = [(v + nV - nb) % nV for v in range(nV)]
+        V2 = np.zeros_like(V)
+        for i in range(nV):
+            V2[perm[i]] = V[i]
+        V, C = V2, [[perm[v] for v in c] for c in C]
+    if desc["orient"] in ("S+", "S-"):
+        C = volumes.orient_cells(V, C, positive=desc["orient"] == "S+")
+        C = volumes.permute_cells(C, rb, even_only=True)
+    else:
+        C = volumes.permute_cells(C, rb)
+    order = list(range(len(C)))
+    rb.shuffle(order)
+    return V, [list(map(int, C[i])) for i in order]
 
 
 def _maps_inverse(ctx, name, a2b, b2a):
@@ -95,7 +140,11 @@ def _boundary_enable(ctx, m, ref, V):
             good = False
             break
     ctx.check(good, "maps", "edge_consistency", "edge_map_inconsistent", "a boundary edge does not map to the volume edge with the same end points")
-    volconn.check_boundary(ctx, ref, V, "enable", bF, bV, b2m_v, expect_outward=True)
+    volconn.check_boundary(ctx, ref, V, "enable", bF, bV, b2m_v, expect_outward=not getattr(ref, "flat_embedding", False))
+    if getattr(ref, "flat_embedding", False):
+        # the library orients each boundary face with the sign of its cell's volume: with zero volumes the faces are not consistently oriented,
+        # and the neighbourhood answers of the boundary surface (which rely on a consistent orientation) are outside what is judged here
+        return
     # translated accessors of the boundary connectivity (volume ids in, volume ids out)
     nb = {}
     for t in ref.border_faces:
@@ -170,12 +219,18 @@ def _boundary_standalone(ctx, m, ref, V, orient):
     bV = build.vertices_array(bm)
     ctx.check(set(m2b) == ref.border_vertices and set(b2m) == set(range(len(bV))), "maps", "standalone_vertex_domain", "wrong_domain",
               "standalone vertex map does not cover exactly the border vertices")
-    volconn.check_boundary(ctx, ref, V, "standalone", bF, bV, b2m, expect_outward=(orient == "S+"))
+    volconn.check_boundary(ctx, ref, V, "standalone", bF, bV, b2m, expect_outward=(orient == "S+") and not getattr(ref, "flat_embedding", False))
 
 
 def run_case(desc, ctx):
     z = volumes.make(desc["seed"], max_size=desc["max_size"], orient=desc["orient"])
     V, C = z["V"], z["C"]
+    if desc["gen"] == "refined":
+        V, C = _refined(desc)
+        if volumes.certify(V, C) is None:
+            raise RuntimeError("harness: the refined cell is not a conforming mesh")
+        z = dict(z, cls="refined_%s_%d_points_inside" % (desc["base"], desc["inserted"]))
+        ctx.cls("numbering:" + desc["numbering"])
     if desc.get("big"):
         rb = random.Random(desc["seed"] ^ 0xb16)
         Vb, Cb = (volumes.kuhn_block if rb.random() < 0.5 else volumes.five_tet_block)(volumes.random_cubes(rb, 0, full=(4, 4, 4 if desc["big"] < 90 else 5)))
@@ -191,7 +246,15 @@ def run_case(desc, ctx):
         # the same mesh in very small / large units: every clause of the statement is combinatorial or a sign, hence unit-free
         V = np.asarray(V, float) * unit
         ctx.cls("units:%g" % unit)
+    flat = desc["seed"] % 7 == 3
+    if flat:
+        # collapsed embedding: every vertex pushed onto one coordinate plane, every cell has exactly zero volume.  The combinatorial clauses
+        # (which faces make up the boundary, closedness, index maps) do not depend on the embedding; "outwards" has no meaning here and is not judged
+        V = np.array(V, float)
+        V[:, desc["seed"] % 3] = [0.0, 2.5][(desc["seed"] // 21) % 2]
+        ctx.cls("embedding:collapsed_onto_a_plane")
     ref = RefVolume(len(V), C)
+    ref.flat_embedding = flat
     rng = random.Random(desc["seed"] ^ 0x9e37)
     P = volconn.probes(ref, rng)
     S = volconn.script(P, ref)
@@ -233,6 +296,9 @@ def run_case(desc, ctx):
                     _boundary_enable(ctx, m, ref, V)
                 else:
                     _boundary_standalone(ctx, m, ref, V, desc["orient"])
+            if desc["orders"] == 1:
+                # single-order cases (big and refined meshes): both ways of extracting the boundary are exercised on the one object
+                _boundary_standalone(ctx, m, ref, V, desc["orient"])
         # route: the mesh is written to a file and read back (geogram files carry the cell adjacency computed at save time; medit/tet files do not);
         # the reloaded object must answer like the reference built from ITS OWN cell list
         if desc["seed"] % 3 == 0:
